@@ -69,6 +69,11 @@ def node_evidence(e: ast.expr, f: Func, ncls: set[str], depth: int = 0) -> str |
                     r = node_evidence(v, f, ncls, depth + 1)
                     if r:
                         return r
+                if isinstance(v, ast.IfExp):
+                    for alt in (v.body, v.orelse):
+                        r = node_evidence(alt, f, ncls, depth + 1)
+                        if r:
+                            return r
         return None
     if isinstance(e, ast.Attribute):
         if e.attr in ("node", "parent", "root", "_root", "child"):
